@@ -1,5 +1,6 @@
 import MLProps.C07
 import MLModel.Supervised
+import MLGen.Tables
 /-!
 # C08 — supervised variants equal the base learner run on label-derived constraints
 
@@ -107,3 +108,16 @@ theorem C08_wiring (cfg : SupConfig) (c : Nat) :
     (∀ n, cfg.nConstraints = some n → wiringOf .mmc cfg c = .pairs n false ∧ wiringOf .sdml cfg c = .pairs n false) := by
   refine ⟨rfl, rfl, fun n h => ?_⟩
   simp [wiringOf, resolveN, h]
+/-- **generated table**: the wiring the translator reads off the six `*_Supervised.fit` methods is the
+documented one (one constraint generator per method, built from the validated labels `y`, seeded with
+`self.random_state`, `same_length` only for LSML, default `20·num_classes²`, tuples formed by `wrap_pairs` /
+`column_stack` / indexing, handed to the base fit; no argument is re-bound on the way) -/
+theorem C08_wiring_generated : MLGen.supWiring = expectedSupWiring := by decide +kernel
+
+/-- every row of that table denotes exactly the generator call of the model (`wiringOf`), for every
+configuration and every number of classes -/
+theorem C08_row_denotes (k : SupKind) (cfg : SupConfig) (c : Nat) :
+    (findSupRow MLGen.supWiring k).bind (fun r => rowGenerator r cfg c) = some (wiringOf k cfg c) := by
+  rw [C08_wiring_generated]
+  cases k <;> cases h : cfg.nConstraints <;>
+    simp [findSupRow, expectedSupWiring, SupKind.className, rowGenerator, wiringOf, resolveN, defaultNConstraints, h, List.find?]
